@@ -906,6 +906,10 @@ class Lowerer:
         if f is None or not f.get('hasInClassInitializer'): raise Unsupported('default member initialiser without field')
         return self.expr(f['inner'][-1])
 
+    def e_ImplicitValueInitExpr(self, n):
+        if self.is_record_type(n['type']): raise Unsupported('value-initialised record member at ' + self.where(n))
+        return '((%s)0)' % self.ctype(n['type'])
+
     def e_CXXScalarValueInitExpr(self, n):
         return '((%s)0)' % self.ctype(n['type'])
 
